@@ -21,6 +21,18 @@ func (p VerParts) ver() version.Version {
 	return version.Version{Epoch: uint(p.E), Version: p.V, Revision: p.R}
 }
 
+// verEdited is the same value reached another way: a Version that came out of the parser for some
+// other text and had its exported members assigned afterwards (what a program does when it bumps
+// a revision). Whatever else the parser may have left in the value, the members are what counts.
+func (p VerParts) verEdited() version.Version {
+	v, err := version.Parse("7:9.9.9~z-9+b9")
+	if err != nil {
+		return p.ver()
+	}
+	v.Epoch, v.Version, v.Revision = uint(p.E), p.V, p.R
+	return v
+}
+
 func partsOf(v version.Version) VerParts {
 	return VerParts{E: uint64(v.Epoch), V: v.Version, R: v.Revision}
 }
